@@ -103,8 +103,14 @@ func c04one(c *core.Ctx, spec *pktSpec, pkt *rtp.Packet, pb *poolBuf) {
 		return
 	}
 	l := spec.layout()
-	if size != l.total || werr != nil || hwerr != nil || len(want) != size || len(hwant) != hsize {
-		// Marshal itself misbehaving on a well-formed packet is C01's subject; C04 needs a reference.
+	if werr != nil || hwerr != nil {
+		// Marshal() IS MarshalTo into an exact-fit destination: failing there on a well-formed packet
+		// breaks the "sufficient destination" clause itself (and leaves the check without a reference).
+		c.Violate("sufficient", "C04/exact-fit/marshal-itself-fails", "Marshal() (MarshalTo into an exact-fit buffer) failed on a well-formed packet: %v / %v (%s)", werr, hwerr, spec)
+		return
+	}
+	if size != l.total || len(want) != size || len(hwant) != hsize {
+		// a MarshalSize that disagrees with the model's canonical layout is C01's subject; C04 needs a reference
 		c.Probe("no-reference")
 		c.Ev("noref", uint64(size), uint64(l.total))
 		return
